@@ -62,20 +62,23 @@ func requiredProvenance(r *core.Run) {
 					return true
 				}
 				// a property of a proto field: it carries the field's number, or its JSON name
-				forField := false
+				forField, clone := false, false
 				for _, e := range x.Elts {
 					if kv, ok := e.(*ast.KeyValueExpr); ok {
 						switch core.ExprStr(kv.Key) {
 						case "JSONName":
-							if _, kind := jsonNameSource(info, kv.Value); kind == "field.JSONName" {
+							switch _, kind := jsonNameSource(info, kv.Value); kind {
+							case "field.JSONName":
 								forField = true
+							case "clone":
+								clone = true // a copy of a property that was built elsewhere
 							}
 						case "ProtoField":
 							forField = true
 						}
 					}
 				}
-				if forField {
+				if forField && !clone {
 					builds = append(builds, &build{pos: x.Pos(), lit: x, fd: core.EnclosingFunc(pk, x.Pos()), obj: litVar[x]})
 				}
 			case *ast.AssignStmt:
@@ -135,13 +138,72 @@ func requiredProvenance(r *core.Run) {
 			o.Fail("the property built for a %s field never receives the required flag: a %s declared required in the source (buf.validate required on the compiled field) reads back as optional", shape, shape)
 			continue
 		}
+		// the flag handed in by the callers of a constructor helper: judged per call site
+		if id, isID := core.Unparen(val).(*ast.Ident); isID {
+			if pidx := paramIndex(info, bd.fd, info.ObjectOf(id)); pidx >= 0 {
+				sites := callSitesOf(pk, bd.fd)
+				if len(sites) > 0 {
+					o.Auto("the flag is the parameter %s: judged at the %d call site(s) of %s", id.Name, len(sites), core.FuncName(bd.fd))
+					for _, cs := range sites {
+						if pidx >= len(cs.call.Args) {
+							continue
+						}
+						cshape := fieldShapeAt(pk, cs.fd, cs.call.Pos())
+						if cshape == "singular" {
+							// the helper built for one shape of field names it (buildArrayProperty …)
+							lower := strings.ToLower(core.FuncName(cs.fd))
+							switch {
+							case strings.Contains(lower, "array") || strings.Contains(lower, "list"):
+								cshape = "array"
+							case strings.Contains(lower, "map"):
+								cshape = "map"
+							}
+						}
+						oc := r.Add("R-PROV/required", "j5schema."+core.FuncName(cs.fd)+" | Required of the "+cshape+" property (through "+core.FuncName(bd.fd)+")", cs.call.Pos(), "required flag handed to "+core.FuncName(bd.fd))
+						judgeRequired(r, pk, cs.fd, cs.call.Args[pidx], cshape, oc)
+					}
+					continue
+				}
+			}
+		}
+		judgeRequired(r, pk, bd.fd, val, shape, o)
+	}
+	r.Floor("R-PROV/required", 3, "array, map and singular properties")
+}
+
+type callSite struct {
+	fd   *ast.FuncDecl
+	call *ast.CallExpr
+}
+
+// callSitesOf lists the static calls of fd in its package.
+func callSitesOf(pk *packages.Package, fd *ast.FuncDecl) []callSite {
+	target := pk.TypesInfo.Defs[fd.Name]
+	var out []callSite
+	core.AllFuncDecls(pk, func(caller *ast.FuncDecl) {
+		ast.Inspect(caller.Body, func(n ast.Node) bool {
+			if c, ok := n.(*ast.CallExpr); ok {
+				if fn := core.CalleeFunc(pk.TypesInfo, c); fn != nil && types.Object(fn.Origin()) == target {
+					out = append(out, callSite{caller, c})
+				}
+			}
+			return true
+		})
+	})
+	return out
+}
+
+// judgeRequired discharges or fails o according to where the value of a required flag comes from.
+func judgeRequired(r *core.Run, pk *packages.Package, fd *ast.FuncDecl, val ast.Expr, shape string, o *core.Oblig) {
+	info := pk.TypesInfo
+	{
 		var live, foreign []string
 		for _, top := range splitOp(val, token.LOR) {
 			// a helper that computes the flag is looked into, its parameters standing for the
 			// arguments of this call
 			inl, subst := inlinePredicate(pk, top)
 			for _, alt := range splitOp(inl, token.LOR) {
-				if deadAlternative(pk, bd.fd, alt, subst) {
+				if deadAlternative(pk, fd, alt, subst) {
 					continue
 				}
 				if isValidateRequired(info, alt) {
@@ -160,7 +222,6 @@ func requiredProvenance(r *core.Run) {
 			o.Auto("from %s", strings.Join(live, " / "))
 		}
 	}
-	r.Floor("R-PROV/required", 3, "array, map and singular properties")
 }
 
 // inlinePredicate replaces a call of a same-package function that only computes one boolean
